@@ -296,7 +296,31 @@ func (s *Sched) runThread(t *mthread) {
 }
 
 // Run executes the registered threads to completion, deadlock or horizon.
+// runningSched: the scheduler whose Run is in progress.
+var runningSched *Sched
+
+// slowSinkPoint is called by the harness's output sink before it takes the bytes of a Write: a write to a terminal, a
+// pipe or a disk may take long, and the other goroutines of the command run meanwhile. A scheduling point when the
+// command has more than one live thread (nothing otherwise).
+func slowSinkPoint() {
+	s := runningSched
+	if s == nil || s.cur == nil {
+		return
+	}
+	live := 0
+	for _, t := range s.threads {
+		if !t.done {
+			live++
+		}
+	}
+	if live > 1 {
+		s.park(&pendingOp{sync: "yield"})
+	}
+}
+
 func (s *Sched) Run() {
+	runningSched = s
+	defer func() { runningSched = nil }()
 	verifshim.SendHook = func(ch interface{}, v interface{}) { s.Send(ch, v) }
 	verifshim.RecvHook = func(ch interface{}) (interface{}, bool) { return s.Recv(ch) }
 	verifshim.SelectHook = func(hasDefault bool, cases []verifshim.SelCase) verifshim.SelResult {
